@@ -640,7 +640,7 @@ def stream_maps(ctx, base, deadline):
     c09 = _c09()
     stream = "ext:map-all-caches"
     for k in range(ctx.n(24, 300)):
-        desc = c09.repeat_inputs(mapgen.gen_case(rng, max_funcs=3, kinds=["elem", "elem", "outer", "partial", "full", "scalar"], p_bound=0.0), rng)
+        desc = c09.repeat_inputs(mapgen.gen_case(rng, max_funcs=3, kinds=["elem", "elem", "outer", "partial", "full", "scalar"], p_bound=0.0, p_whole=0.4), rng)
         if k % 2:
             desc = c09.rich_map_inputs(desc, rng, p_rich=0.8)      # equal elements built in different ways (c09_values)
             for kind in desc.get("c09_rich_kinds") or []:
